@@ -94,6 +94,20 @@ CHECKS["C18"] = dict(
          "(vlib/stubs/fakefs.py; counterexamples must reproduce on the real filesystem).",
     design="4/C18")
 
+CHECKS["C20"] = dict(
+    level="model_checking", engine="X",
+    technique="CrossHair symbolic execution (z3) of the real EntryPointGenerator.filter_rule_by_unit_info/check_rules with "
+              "lazily decoded symbolic rule fields, and of util.check_file_processing_flag_and_extract_lang on symbolic "
+              "file-name strings, against the declarative reading of the rules",
+    text="Kernel-level bounded model checking: for every rule (two rules for the first-match logic) whose fields range "
+         "over option tables including 'absent', every listed unit and method description, the set selected by the real "
+         "filter code equals 'some rule matches the unit and the method'; the settings file-name filter is decided for "
+         "every symbolic prefix up to the bound. CONFIRMED = slice exhausted. The program-level leg (P3 start set == "
+         "entry_points table) is not part of this check.",
+    note="Trusted: CrossHair/z3, the 25-line declarative reference (reading of args/return_type fixed in evidence), "
+         "duck-typed unit scope rows.",
+    design="4/C20")
+
 NOT_APPLICABLE = {
     "C12": "A relation between two whole-pipeline runs on syntactically edited programs: the quantified objects are "
            "program texts and edit sequences; no run-time input, id, flag or history for a solver to range over; "
